@@ -6,7 +6,7 @@ PROP = dict(
     technique="differential property-based testing (rapid) with DAG inspection",
     assumptions=["the in-memory storage engine stands in for file/S3 storage", "schedules are varied by GOMAXPROCS in {1,2,default}, repetition and (thorough) the race detector; they are not enumerated"],
     race_thorough=True,
-    tests=[dict(name="TestParallel", quick=(4, 60), thorough=(8, 50)),
-           dict(name="TestParallelP1", gomaxprocs=1, quick=(2, 60), thorough=(4, 50)),
-           dict(name="TestParallelP2", gomaxprocs=2, quick=(2, 60), thorough=(4, 50))],
+    tests=[dict(name="TestParallel", quick=(4, 60), thorough=(8, 30)),
+           dict(name="TestParallelP1", gomaxprocs=1, quick=(2, 60), thorough=(4, 30)),
+           dict(name="TestParallelP2", gomaxprocs=2, quick=(2, 60), thorough=(4, 30))],
 )
